@@ -11,10 +11,10 @@ from mc import core
 P0 = {'w': [0.5, -1.0], 'b': 0.25}
 
 
-def jparams(p=None):
+def jparams(p=None, dtype=np.float32):
   import jax.numpy as jnp
   p = p or P0
-  return {'w': jnp.asarray(np.asarray(p['w'], np.float32)), 'b': jnp.asarray(np.float32(p['b']))}
+  return {'w': jnp.asarray(np.asarray(p['w'], dtype)), 'b': jnp.asarray(np.asarray(p['b'], dtype))}
 
 
 def nparams(p):
@@ -35,10 +35,10 @@ def make_loss(mode='rng'):
   return loss
 
 
-def client_data(n, idx, seed=0, domains=2):
+def client_data(n, idx, seed=0, domains=2, dtype=np.float32):
   v = core.value_pool(seed * 17 + idx * 5 + 1, 3 * max(n, 1) + 3, lo=-2, hi=2, denom=2)
-  x = np.asarray(v[:2 * n], np.float32).reshape(n, 2)
-  y = np.asarray(v[2 * n:3 * n], np.float32).reshape(n) + np.float32(1 / 32)
+  x = np.asarray(v[:2 * n], dtype).reshape(n, 2)
+  y = np.asarray(v[2 * n:3 * n], dtype).reshape(n) + dtype(1 / 32)
   d = ((np.arange(n) + idx) % domains).astype(np.int32)
   return {'x': x, 'y': y, 'domain_id': d}
 
